@@ -21,7 +21,7 @@ PROBES = {
             "no_leak_checked", "honest_recomputation_checked", "prefitted_forecaster",
             "missing_values_in_training_window", "fit_params_checked",
             "x_consuming_forecaster", "missing_values_in_test_window", "raw_metric_checked",
-            "exogenous_windows_checked"],
+            "exogenous_windows_checked", "splitter_object_reused", "windows_with_holes"],
     "C08": ["tie_in_best_score", "greater_is_better", "nested_param_names", "multiplexer_grid",
             "randomized_search", "refit_false", "interleave_schedule", "pre_dispatch_window",
             "lockstep_history_checked", "sibling_schedule_checked", "list_of_grids",
@@ -29,7 +29,8 @@ PROBES = {
             "fit_horizon_remembered", "prediction_intervals_checked", "undefined_candidate_score",
             "update_predict_single_checked", "update_predict_default_splitter",
             "all_scores_undefined", "step_refused_by_both", "raw_metric_checked",
-            "refit_switched_off_and_fitted_again", "refit_failed_on_second_fit", "rescaled_series"],
+            "refit_switched_off_and_fitted_again", "refit_failed_on_second_fit", "rescaled_series",
+            "revised_batch_checked", "search_with_exogenous_data", "metric_changed_before_second_fit"],
 }
 FAULT_KINDS = {
     "C07": ["clock_jump_fwd", "clock_jump_back"],
@@ -179,8 +180,13 @@ def generate(prop, rng, tier):
         need = C.min_train_len(spec, max(cv["fh"])) if spec["kind"] != "xinc" else 3
         cv["window"] = max(cv["window"], need)
         strategy = rng.choice(["refit", "refit", "update"])
-        if strategy == "update":
+        holes_ok = spec["kind"] == "naive" and spec.get("strategy") == "last" and spec.get("sp", 1) == 1
+        if strategy == "update" and not holes_ok:
             cv["step"] = min(cv["step"], cv["window"])  # no holes in what the forecaster sees
+        elif strategy == "update" and cv["type"] == "sliding" and rng.random() < 0.5:
+            # (the simplest forecaster tolerates them: windows that leave observations out)
+            cv["window"] = min(cv["window"], 4)
+            cv["step"] = cv["window"] + rng.choice([1, 2])
         if cv.get("initial"):
             cv["initial"] = max(cv["initial"], cv["window"] + 1)
         n = max(n, (cv.get("initial") or cv["window"]) + max(cv["fh"]) + rng.randint(2, 9))
@@ -201,6 +207,8 @@ def generate(prop, rng, tier):
             "metric": metric, "nan_test": nan_test,
             "with_X": with_X, "return_data": rng.random() < 0.4,
             "prefit": rng.random() < 0.25,
+            # the same splitter object, reconfigured, is used for a second evaluation
+            "reuse_cv": rng.random() < 0.3,
             "fit_params": rng.random() < 0.3,
             # missing values early in the series (NaiveForecaster(last) accepts them)
             "nans": spec == {"kind": "naive", "strategy": "last", "sp": 1, "window_length": None}
@@ -272,6 +280,11 @@ def generate(prop, rng, tier):
         "scale": rng.choice([1.0, 1.0, 1.0, 1e-5, 1e-3, 1e4]),
         # a later fit of the same tuner whose final refit on the whole series fails
         "refit_fails": base_kind == "naive" and rng.random() < 0.3,
+        # a search with exogenous data over a forecaster whose forecasts depend on the X it was
+        # fitted with
+        "exog_refit": base_kind == "naive" and isinstance(grid, dict) and rng.random() < 0.3,
+        # the metric (and part of the grid) changed with set_params before the second fit
+        "second_metric": rng.choice([None, "neg_mae", "mse", "skill", "asym"]),
         # horizon given to fit (None, or one that differs from the splitter's)
         "fit_fh": rng.choice([None, None, [1, 2, 5], [2, 3, 4, 6]]),
         "alpha": rng.choice([0.05, 0.2, 0.5]),
@@ -282,7 +295,7 @@ def generate(prop, rng, tier):
                     "mode": rng.choice(["fifo", "ooo", "interleave"]),
                     "seed": rng.randint(0, 10 ** 6)},
         "history": [rng.choice(["predict", "update", "update_nop", "update_predict", "predict",
-                                "ups", "ups_nop", "update_predict_nocv"])
+                                "ups", "ups_nop", "update_predict_nocv", "update_revised"])
                     for _ in range(rng.randint(1, 4))],
         "tail": rng.randint(4, 8),
         "clock": {"seed": rng.randint(0, 10 ** 6), "jump_every": rng.choice([0, 0, 4]),
@@ -381,6 +394,8 @@ def execute_c07(scen):
                     ("order_sensitive_scorer", scen["metric"] in ORDER_SENSITIVE),
                     ("with_X", scen["with_X"]), ("return_data", scen["return_data"]),
                     ("initial_window", bool(scen["cv"].get("initial"))),
+                    ("windows_with_holes", scen["strategy"] == "update" and scen["cv"]["type"] == "sliding"
+                     and scen["cv"]["step"] > scen["cv"]["window"]),
                     ("gapped_fh", scen["cv"]["fh"] != list(range(1, len(scen["cv"]["fh"]) + 1)))):
         if cond:
             res.probe(k)
@@ -528,6 +543,38 @@ def execute_c07(scen):
                     break
         except Exception as e:  # noqa
             digest.update(b"honest_raised")
+    # ---- the same splitter object, reconfigured, used again: the second table follows the
+    # splitter as it is now
+    if scen.get("reuse_cv") and not res.violations and hasattr(cv, "step_length"):
+        try:
+            cv.step_length = cv.step_length % 3 + 1
+            old_fh = [int(x) for x in np.atleast_1d(cv.fh)]
+            cv.fh = [s_ + 1 for s_ in old_fh] if max(old_fh) + 1 + scen["cv"]["window"] < len(y) else old_fh
+            with peers.paused():
+                splits2 = [(np.asarray(tr), np.asarray(te)) for tr, te in cv.split(y)]
+            peers.CTX.log = []
+            with sched.scenario_schedule(sched.Scheduler("fifo", 0)), patched_evaluate_clock(SimClock(9)):
+                table2 = evaluate(peers.SpyForecaster(inner, tag="F"), cv, y, X, strategy="refit",
+                                  scoring=metric)
+            res.probe("splitter_object_reused")
+            if len(table2) != len(splits2):
+                v("row_count", "second evaluation with the reconfigured splitter object returned %d "
+                  "rows, the splitter now has %d splits" % (len(table2), len(splits2)), reused=True)
+            else:
+                preds2 = [r for r in peers.CTX.log if r["tag"] == "F" and r["m"] == "predict"]
+                for i2, (tr, te) in enumerate(splits2):
+                    if table2.iloc[i2]["cutoff"] != y.index[tr[-1]]:
+                        v("wrong_cutoff", "second evaluation, fold %d: table cutoff %s, split cutoff %s"
+                          % (i2, table2.iloc[i2]["cutoff"], y.index[tr[-1]]), reused=True)
+                        break
+                    fhv2 = preds2[i2]["fh"]["v"] if i2 < len(preds2) and preds2[i2].get("fh") else None
+                    if fhv2 != [int(t) for t in y.index[te]]:
+                        v("wrong_horizon", "second evaluation, fold %d: predict was asked for %s, the "
+                          "split's test points are %s" % (i2, fhv2, [int(t) for t in y.index[te]]),
+                          reused=True)
+                        break
+        except Exception as e:  # noqa
+            digest.update(("reuse:%s" % type(e).__name__).encode())
     res.digest = digest.hexdigest()[:16]
     res.states.add(short_hash([len(splits), scen["strategy"]]))
     return res
@@ -792,12 +839,38 @@ def execute_c08(scen):
         from sklearn.model_selection import ParameterGrid
         cands2 = list(ParameterGrid(grid2))
         s4 = sched.Scheduler(scen["sched"]["mode"], scen["sched"]["seed"] + 17, scen["sched"]["p"])
+        metric2 = scen.get("second_metric")
+        if metric2 == scen["metric"] or scen["metric"] == "corr":
+            metric2 = None
+        m2name = metric2 if metric2 is not None else scen["metric"]
         try:
             with sched.scenario_schedule(s4), patched_evaluate_clock(SimClock(3)):
-                tuner.set_params(param_grid=grid2)
+                if metric2 is not None:
+                    # (the metric is reconfigured as well: ranking follows the new metric)
+                    tuner.set_params(param_grid=grid2, scoring=build_metric(metric2))
+                    res.probe("metric_changed_before_second_fit")
+                else:
+                    tuner.set_params(param_grid=grid2)
                 tuner.fit(y)
             res.probe("second_fit_other_grid")
             t2 = tuner.cv_results_
+            mean_col2 = [c for c in t2.columns if c.startswith("mean_test_")]
+            want_col = "mean_test_" + build_metric(m2name if m2name is not None else "smape").name
+            if mean_col2 != [want_col]:
+                v("score_column", "second fit scored with %s: cv_results_ has %s, expected %s" % (
+                    m2name, mean_col2, want_col), second=True)
+                res.digest = "second"
+                return res
+            means2 = np.asarray(t2[want_col], float)
+            if not np.isnan(means2).any():
+                best2 = means2.max() if m2name in GREATER else means2.min()
+                if not np.isclose(means2[int(tuner.best_index_)], best2, rtol=1e-12, atol=1e-15):
+                    v("best_is_not_best", "second fit scored with %s: best_index_=%d has mean %.10g, the "
+                      "best is %.10g" % (m2name, int(tuner.best_index_), means2[int(tuner.best_index_)],
+                                         best2), direction="greater" if m2name in GREATER else "lower",
+                      second=True)
+                    res.digest = "second"
+                    return res
             with peers.paused():
                 s5 = sched.Scheduler("fifo", 0)
                 with sched.scenario_schedule(s5):
@@ -805,12 +878,12 @@ def execute_c08(scen):
                         f = clone(C.build(scen["base"])).set_params(**params)
                         try:
                             t = evaluate(f, C.build_cv(scen["cv"]), y, strategy=scen["strategy"],
-                                         scoring=build_metric(scen["metric"]))
+                                         scoring=build_metric(m2name))
                         except Exception:
                             continue
                         col = [c for c in t.columns if c.startswith("test_")][0]
                         em = float(t[col].mean())
-                        got = float(t2.iloc[i2][mean_col])
+                        got = float(t2.iloc[i2][want_col])
                         if not np.isclose(got, em, rtol=1e-9, atol=1e-12, equal_nan=True):
                             v("second_fit_row_differs", "second fit (grid without %r), candidate %s: "
                               "cv_results_ mean %.10g, an independent evaluate() of a clone of the "
@@ -819,7 +892,7 @@ def execute_c08(scen):
                             return res
             # restore the first configuration and its results for the rest of the scenario
             with sched.scenario_schedule(sched.Scheduler("fifo", 0)), patched_evaluate_clock(SimClock(4)):
-                tuner.set_params(param_grid=scen["grid"])
+                tuner.set_params(param_grid=scen["grid"], scoring=build_metric(scen["metric"]))
                 tuner.fit(y, fh=scen.get("fit_fh"))
         except Exception as e:  # noqa
             if scen["metric"] == "corr" and _all_undefined(dict(scen, grid=grid2, search="grid"), y):
@@ -920,6 +993,16 @@ def execute_c08(scen):
                 def step(o, batch=batch, up=up):
                     o.update(batch, update_params=up)
                     return o.predict(fh)
+        elif op == "update_revised":
+            # revised values for the two most recent time points already seen (the batch ends
+            # exactly at the cutoff)
+            seen_ = pd.concat([y, tail.iloc[:pos]])
+            batch = seen_.iloc[-2:] + 1.0
+            res.probe("revised_batch_checked")
+
+            def step(o, batch=batch):
+                o.update(batch, update_params=False)
+                return o.predict(fh)
         elif op == "update_predict_nocv":
             # no splitter given: the best forecaster's own default, not the tuning splitter
             if pos + 19 > len(tail):
@@ -970,6 +1053,36 @@ def execute_c08(scen):
                 op, k, tuner.cutoff, direct.cutoff), op=op)
             break
         digest.update(repr((op, C.digest_obj(a))).encode())
+    # ---- a search given exogenous data: the winner is refitted on the whole series WITH it
+    if scen.get("exog_refit") and scen["base"]["kind"] == "naive" and isinstance(scen["grid"], dict) \
+            and not res.violations:
+        from sktime.forecasting.model_selection import ForecastingGridSearchCV
+        b0 = C.build(scen["base"])
+        Xall = pd.DataFrame({"x0": np.round(np.sin(np.arange(len(y_all)) / 2.0) + 3.0, 4)}, index=y_all.index)
+        Xtr, Xfut = Xall.iloc[:scen["n"]], Xall.iloc[scen["n"]:scen["n"] + max(fh)]
+        try:
+            with sched.scenario_schedule(sched.Scheduler(scen["sched"]["mode"], scen["sched"]["seed"] + 9,
+                                                         scen["sched"]["p"])), \
+                    patched_evaluate_clock(SimClock(7)):
+                tx = ForecastingGridSearchCV(
+                    peers.XNaive(strategy=b0.strategy, window_length=b0.window_length, sp=b0.sp),
+                    C.build_cv(scen["cv"]), scen["grid"], scoring=build_metric(scen["metric"]),
+                    n_jobs=scen["n_jobs"])
+                tx.fit(y, Xtr)
+                a_ = tx.predict(fh, X=Xfut)
+            with peers.paused():
+                dx = peers.XNaive(strategy=b0.strategy, window_length=b0.window_length, sp=b0.sp)
+                dx.set_params(**tx.best_params_)
+                dx.fit(y, Xtr)
+                b_ = dx.predict(fh, X=Xfut)
+            res.probe("search_with_exogenous_data")
+            if not C.same_series(a_, b_):
+                v("tuner_differs_from_best_forecaster", "fit(y, X): the tuner forecasts %s, a forecaster "
+                  "built with best_params_ and fitted on (y, X) forecasts %s" % (C.fmt(a_), C.fmt(b_)),
+                  op="exog_refit")
+        except Exception as e:  # noqa
+            v("fit_raised", "search with exogenous data raised %s: %s" % (type(e).__name__, str(e)[:150]),
+              exc=type(e).__name__, exog=True)
     # ---- the same tuner fitted again on a longer series, where the search succeeds but the
     # final refit raises: nothing of the earlier fit may go on answering
     if scen.get("refit_fails") and scen["base"]["kind"] == "naive" and not res.violations \
